@@ -72,7 +72,7 @@ CfgPoS0 == [auth |-> <<1, 2, 3>>, bal |-> [m \in Masters |-> 2], thr |-> 1, mbp 
             cord |-> <<1, 2, 3, 4>>]
 
 KindsMember == {Tx("add", 4, 0), Tx("revoke", 1, 0), Tx("revoke", 2, 0), Tx("revoke", 3, 0), Tx("mbp", 0, 2), Tx("mbp", 0, 3)}
-KindsMemberQ == {Tx("add", 4, 0), Tx("revoke", 1, 0), Tx("revoke", 3, 0), Tx("mbp", 0, 2), Tx("mbp", 0, 3)}
+KindsMemberQ == {Tx("add", 4, 0), Tx("revoke", 1, 0), Tx("revoke", 3, 0), Tx("mbp", 0, 2)}
 KindsEndorse == {Tx("thr", 0, 1), Tx("thr", 0, 2), Tx("out", 1, 0), Tx("in", 1, 0), Tx("out", 3, 0), Tx("in", 3, 0),
                  Tx("mbp", 0, 2), Tx("mbp", 0, 3)}
 KindsEndorseQ == {Tx("thr", 0, 1), Tx("thr", 0, 2), Tx("out", 1, 0), Tx("in", 3, 0)}
